@@ -28,11 +28,42 @@ def make_filters(n, rng):
     return fs
 
 
+def _raw_nodes(tree):
+    out, st = [], [tree._seed_node]
+    while st:
+        nd = st.pop()
+        out.append(nd)
+        st.extend(reversed(nd._child_nodes))
+    return out
+
+
 def run_case(case):
     import dendropy
     rng = random.Random(case["seed"])
     ns, taxa = build.make_namespace(dendropy, max(1, case["nleaves"]))
     tree = build.build_tree(dendropy, case["nested"], ns, taxa, rooted=True)
+    # history before the traversals (hidden state such as cached bipartitions must not matter)
+    hist = case.get("history", "")
+    if hist:
+        if "shared" in hist:                      # several leaves carrying one and the same taxon / no taxon
+            lvs = [nd for nd in _raw_nodes(tree) if not nd._child_nodes]
+            for k, nd in enumerate(lvs):
+                nd.taxon = taxa[0] if k % 2 == 0 else None
+        try:
+            tree.encode_bipartitions()
+        except Exception:
+            pass
+        nodes = _raw_nodes(tree)
+        if "grow" in hist:
+            nd = nodes[rng.randrange(len(nodes))]
+            c1 = nd.new_child(label="x1")
+            if rng.random() < 0.5:
+                nd.new_child(label="x2")
+        if "shrink" in hist:
+            cand = [nd for nd in _raw_nodes(tree) if not nd._child_nodes and nd._parent_node is not None]
+            if cand:
+                nd = cand[rng.randrange(len(cand))]
+                nd._parent_node.remove_child(nd)
     ids = {}
     g = proj.tree_graph(tree, node_ids=ids)
     order = ids.pop("__order__")
@@ -138,18 +169,24 @@ def run_case(case):
         log_iter("leaf", "Node.leaf_nodes", ids[id(nd)], allv, False, lambda: nd.leaf_nodes(), nid)
         log_iter("preorder", "Node.__iter__", ids[id(nd)], allv, False, lambda: iter(nd), nid)
     evs.append({"action": "Len", "g": g, "val": len(tree)})
+    combos = [("before", "after", "leaf")]
+    if case.get("all_starts", True):
+        combos += [("before", "after"), ("before", "leaf"), ("after", "leaf"), ("before",), ("after",), ("leaf",), ()]
+    else:
+        combos += [rng.choice([("before", "after"), ("after",), ("after", "leaf"), ("before",)])]
     for nd, api in [(x, "Node.apply") for x in starts] + [(None, "Tree.apply")]:
-        out = []
-        b = lambda x: out.append({"k": "before", "n": nid(x)})
-        a = lambda x: out.append({"k": "after", "n": nid(x)})
-        lf = lambda x: out.append({"k": "leaf", "n": nid(x)})
-        try:
-            (tree if nd is None else nd).apply(b, a, lf)
-            raised = ""
-        except Exception as ex:
-            raised = type(ex).__name__
-        evs.append({"action": "Apply", "g": g, "api": api, "start": g["seed"] if nd is None else ids[id(nd)],
-                    "out": out, "raised": raised})
+        for given in combos:
+            out = []
+            b = (lambda x: out.append({"k": "before", "n": nid(x)})) if "before" in given else None
+            a = (lambda x: out.append({"k": "after", "n": nid(x)})) if "after" in given else None
+            lf = (lambda x: out.append({"k": "leaf", "n": nid(x)})) if "leaf" in given else None
+            try:
+                (tree if nd is None else nd).apply(before_fn=b, after_fn=a, leaf_fn=lf)
+                raised = ""
+            except Exception as ex:
+                raised = type(ex).__name__
+            evs.append({"action": "Apply", "g": g, "api": api, "start": g["seed"] if nd is None else ids[id(nd)],
+                        "given": list(given), "out": out, "raised": raised})
     # Tree.ageorder_node_iter uses the ages set above (seed age is not None)
     for incl in (True, False):
         for desc in (False, True):
@@ -175,6 +212,15 @@ def run(ctx):
         cases.append({"kind": "model", "seed": ctx.seed * 7919 + k, "nleaves": nl,
                       "nested": build.nested_from_parents(par, list(range(nl))), "all_starts": True})
     nmodel = len(cases)
+    # the same domain again after a history: encode bipartitions, then edit without updating them
+    hcases = []
+    for k, c in enumerate(cases):
+        for h in (("encode",), ("encode", "grow"), ("encode", "shrink"), ("shared", "encode", "grow")):
+            if not ctx.quick or (k + len(h)) % 2 == 0:
+                hc = dict(c, kind="model+history", history="+".join(h), all_starts=False, filters=["none", "mixed"],
+                          seed=c["seed"] * 31 + len(hcases))
+                hcases.append(hc)
+    cases += hcases
     rng = random.Random(ctx.seed + 15)
     nrand = 40 if ctx.quick else 1500
     for k in range(nrand):
